@@ -283,11 +283,15 @@ impl<'a> Iterator for Lexer<'a> {
                                 '0' => '\0',
                                 'r' => '\r',
                                 'u' => {
-                                    if iter.next() != Some('{') {
+                                    let Some(n) = iter.next() else {
+                                        // TODO: error in this case?
+                                        return None;
+                                    };
+                                    self.l += n.len_utf8();
+                                    if n != '{' {
                                         // TODO error
                                         continue;
                                     }
-                                    self.l += '{'.len_utf8();
                                     let mut i: u32 = 0;
                                     let mut valid = true;
                                     loop {
